@@ -317,7 +317,9 @@ impl Check for DebugCheck {
         }
     }
     fn generate(&self, seed: u64, index: u64) -> J {
-        self.scenario(seed, index).to_json()
+        // C09: one session in 30 is also compared at process level, `lace run` against
+        // `lace debug` (the two arms of the front end never run in-process)
+        self.scenario(seed, index).to_json().set("world_b", self.id == "C09" && index % 30 == 11)
     }
     fn execute(&self, cap: &Capture, scenario: &J) -> Report {
         let Some(mut scn) = DebugScenario::from_json(scenario) else {
@@ -334,7 +336,11 @@ impl Check for DebugCheck {
                 .collect();
             scn.program.features = names;
         }
-        session_report(self.id, cap, &scn)
+        let mut report = session_report(self.id, cap, &scn);
+        if self.id == "C09" && scenario.get_bool("world_b").unwrap_or(false) && report.violations.is_empty() && report.discarded.is_none() {
+            c09_run_vs_debug(&scn, &mut report);
+        }
+        report
     }
     fn shrink(&self, scenario: &J) -> Vec<J> {
         match DebugScenario::from_json(scenario) {
@@ -479,3 +485,107 @@ pub static C16: DebugCheck = DebugCheck {
     probes: &["probe:pc_0xFFFF_under_debugger", "probe:pause_outside_user_space", "probe:pause_at_halt", "fault:eof_script"],
     fixed: no_fixed,
 };
+
+/// C09 at process level: the shipped `lace run` against the shipped `lace debug` fed the same
+/// transparent script (through `--command`, a real pipe, or both), the program's input on the
+/// same standard input. Program output and exit status must be the same.
+fn c09_run_vs_debug(scn: &DebugScenario, report: &mut Report) {
+    use crate::session::deliver;
+    use crate::world_b::{run_lace, Run, Scratch};
+    let transparent = scn.script.iter().all(|i| i.cmd.is_transparent());
+    if !transparent || scn.transport == Transport::Terminal {
+        return;
+    }
+    // Program input is only deliverable where the script cannot eat it (see session.rs)
+    let input: Vec<u8> = if scn.input_is_deliverable() || scn.input_follows_script() { scn.input.clone() } else { Vec::new() };
+    if scn.program.uses_input && input.is_empty() && !scn.input.is_empty() {
+        return;
+    }
+    let scratch = Scratch::new("c09");
+    let asm = scratch.path("p.asm");
+    if std::fs::write(&asm, scn.program.render()).is_err() {
+        return;
+    }
+    let base_args = |verb: &str| -> Vec<std::ffi::OsString> {
+        let mut args: Vec<std::ffi::OsString> = vec![verb.into(), asm.clone().into_os_string()];
+        if scn.minimal {
+            args.push("--minimal".into());
+        }
+        if scn.stack {
+            args.push("-f".into());
+            args.push("stack".into());
+        }
+        args
+    };
+    let plain = run_lace(
+        &scratch,
+        &Run {
+            args: base_args("run"),
+            cwd: &scratch.dir,
+            stdin: &input,
+            plan: None,
+            watch: None,
+            rlimit_fsize: None,
+        },
+    );
+    let d = deliver(&scn.script, &scn.transport, scn.sep_seed);
+    let mut args = base_args("debug");
+    if let Some(arg) = &d.arg {
+        args.push(format!("--command={}", arg).into());
+    }
+    let mut stdin = d.stdin.clone();
+    if scn.input_follows_script() && !matches!(stdin.last(), Some(b'\n') | Some(b';')) {
+        stdin.push(b'\n');
+    }
+    stdin.extend_from_slice(&input);
+    let debugged = run_lace(
+        &scratch,
+        &Run {
+            args,
+            cwd: &scratch.dir,
+            stdin: &stdin,
+            plan: None,
+            watch: None,
+            rlimit_fsize: None,
+        },
+    );
+    report.count("processes", 2);
+    report.hit("fault:real_process_run_vs_debug");
+    if plain.hang || debugged.hang {
+        return;
+    }
+    let cut = |out: &[u8]| -> Vec<u8> {
+        let marker = b"Running emitted binary\n";
+        match out.windows(marker.len()).position(|w| w == marker) {
+            Some(at) => {
+                let rest = &out[at + marker.len()..];
+                let done = b"   Completed target ";
+                match rest.windows(done.len()).rposition(|w| w == done) {
+                    Some(end) => rest[..end].to_vec(),
+                    None => rest.to_vec(),
+                }
+            }
+            None => out.to_vec(),
+        }
+    };
+    if plain.label() != debugged.label() {
+        report.violations.push(Violation::new(
+            "C09",
+            "C09/world-b/status",
+            format!("`lace run` ended with {}, `lace debug` with the transparent script with {}", plain.label(), debugged.label()),
+        ));
+    } else if cut(&plain.stdout) != cut(&debugged.stdout) {
+        let (a, b) = (cut(&plain.stdout), cut(&debugged.stdout));
+        let at = (0..a.len().max(b.len())).find(|i| a.get(*i) != b.get(*i)).unwrap_or(0);
+        report.violations.push(Violation::new(
+            "C09",
+            "C09/world-b/stdout",
+            format!(
+                "program output of `lace run` and of `lace debug` with the transparent script differ at byte {}: run {:?}, debug {:?}",
+                at,
+                String::from_utf8_lossy(&a[at.saturating_sub(6).min(a.len())..(at + 14).min(a.len())]),
+                String::from_utf8_lossy(&b[at.saturating_sub(6).min(b.len())..(at + 14).min(b.len())])
+            ),
+        ));
+    }
+}
